@@ -14,7 +14,7 @@ Input: one case per line, tab separated `key=value` fields
   xs       (optional) a script to execute on the strict device instead of the model's: not used
 Output: tab separated
   rej=0|1  valid=…  msgs=m1|m2  script=l1|l2|…  hits=h:n,…  exec=ok|rejected@k:why  final=<dump>
-  wf=0|1   the decidable hypothesis `NA.F2.wfB` of the end-to-end theorem `ios_F2_converges`
+  wf=0|1   the decidable hypothesis `NA.F2.wfB` of the end-to-end theorem `ios_F2_converges_partial`
 -/
 namespace NA.Drv.C02
 open NA.F2 NA.IOUtil
@@ -105,8 +105,9 @@ def answer (line : String) : String :=
       "script=" ++ "|".intercalate (showChanges r.script),
       "hits=" ++ countHits r.hits,
       "exec=" ++ exec,
-      -- hypothesis of the end-to-end theorem `ios_F2_converges` (NA.F2.wfB)
+      -- hypothesis of the end-to-end theorem `ios_F2_converges_partial` (NA.F2.wfB)
       "wf=" ++ (if wfB a b sc then "1" else "0"),
+      "wfwhy=" ++ wfWhy a b sc,
       "final=" ++ NA.IosDev2.dump ex.1]
 
 end NA.Drv.C02
